@@ -886,15 +886,17 @@ class Env:
         if not hasattr(self, "CV"):
             self.default_box = Box(DEFAULT_ID)
             self.default_box.twin = Box(DEFAULT_ID + 1001)
+            self.default_box.twin.twin = Box(DEFAULT_ID + 2002)
             # bare ContextVars proxied by LocalProxy(var[, name]): number 0 has no default, number 1 has one
             self.CV = [contextvars.ContextVar("c18.cv0"), contextvars.ContextVar("c18.cv1", default=self.default_box)]
-        self.default_box.tag = self.default_box.twin.tag = None
+        self.default_box.tag = self.default_box.twin.tag = self.default_box.twin.twin.tag = None
         _SPECIALS.clear()
         _SPECIALS.update(new_specials())
         self.tokens = {}
         self.iters = []
         self.prox = []
-        self.boxes = {DEFAULT_ID: self.default_box, DEFAULT_ID + 1001: self.default_box.twin}
+        self.boxes = {DEFAULT_ID: self.default_box, DEFAULT_ID + 1001: self.default_box.twin,
+                      DEFAULT_ID + 2002: self.default_box.twin.twin}
         self.tok = 0
 
     def box(self, n):
@@ -906,6 +908,7 @@ class Env:
         if b is None:
             b = self.boxes[n] = Box(n)
             b.twin = self.boxes[n + 1001] = Box(n + 1001)      # the attribute a named proxy (stack("twin")) follows
+            b.twin.twin = self.boxes[n + 2002] = Box(n + 2002)  # ... and a dotted one (stack("twin.twin"))
         return b
 
     def retrofit(self):
@@ -1030,14 +1033,16 @@ def untok(t: str):
     return c, (k,) + tuple(int(x) for x in rest)
 
 
+LNAMES = NAMES + ["a.twin", "a.twin.twin"]          # local("a.twin"): a dotted path starting at an attribute of the Local
+PATHS = [None, "twin", "twin.twin"]                 # stack(), stack("twin"), stack("twin.twin"); same for LocalProxy(ContextVar, ...)
 CV_KINDS = ("cvset", "cvreset")
 DEFAULT_ID = 77                  # the object that is the `default=` of ContextVar number 1
 
 
 def uses_contextvars(steps) -> bool:
     """schedules the extracted model cannot read: bare ContextVar operations, in-place operators / content observations"""
-    return any(op[0] in CV_KINDS or (op[0] == "mkp" and op[1] == "v") or (op[0] == "px" and (op[2] == "val" or op[2][0] == "i"))
-               for _, op in steps)
+    return any(op[0] in CV_KINDS or (op[0] == "mkp" and (op[1] == "v" or op[3] >= (3 if op[1] == "l" else 2)))
+               or (op[0] == "px" and (op[2] == "val" or op[2][0] == "i")) for _, op in steps)
 
 
 def apply(env: Env, op, c: int = 0) -> str:
@@ -1110,11 +1115,11 @@ def apply(env: Env, op, c: int = 0) -> str:
         if k == "mkp":
             kw = {"unbound_message": f"m{op[4]}"} if op[4] else {}
             if op[1] == "l":
-                env.prox.append(env.L[op[2]](NAMES[op[3]], **kw))
+                env.prox.append(env.L[op[2]](LNAMES[op[3]], **kw))
             elif op[1] == "v":
-                env.prox.append(env.mod.LocalProxy(env.CV[op[2]], "twin" if op[3] else None, **kw))
+                env.prox.append(env.mod.LocalProxy(env.CV[op[2]], PATHS[op[3]], **kw))
             else:
-                env.prox.append(env.S[op[2]]("twin" if op[3] else None, **kw))
+                env.prox.append(env.S[op[2]](PATHS[op[3]], **kw))
             return f"proxy:{len(env.prox) - 1}"
         if k == "px":
             if op[1] >= len(env.prox):
@@ -1394,6 +1399,11 @@ def oracle(steps) -> list[str]:
 
     def bound(m, d):
         if d[0] == "l":
+            if d[2] >= 3:
+                # local("a.twin"), local("a.twin.twin"): attrgetter walks the path from the Local; EVERY AttributeError on the way
+                # (attribute a unset, or its value has no such attribute) is caught by the Local closure: unbound
+                base = dict(m.get(("l", d[1]), ())).get(0)
+                return None if base is None or 8000 <= base < 10000 else base + 1001 * (d[2] - 2)
             return dict(m.get(("l", d[1]), ())).get(d[2])
         if d[0] == "v":
             # LocalProxy(ContextVar): unbound ONLY where var.get() raises LookupError - never set in this context (or its
@@ -1404,12 +1414,14 @@ def oracle(steps) -> list[str]:
             if val is None:
                 return None
             if d[2]:
-                return "ERR" if val >= 9000 else val + 1001      # attrgetter("twin") on None: the object's own AttributeError
+                return "ERR" if 8000 <= val < 10000 else val + 1001 * d[2]   # attrgetter("twin") on None: the object's own AttributeError
             return val
         st = m.get(("s", d[1]), ())
         if not st or st[-1] == NONE_ID:         # the code: a stack proxy whose top IS None reports itself unbound
             return None
-        return st[-1] + (1001 if d[2] else 0)
+        if d[2] and 8000 <= st[-1] < 10000:
+            return "ERR"
+        return st[-1] + 1001 * d[2]
     for c, op in steps:
         if c >= len(ctxs):
             outs.append("invalid")
@@ -1603,6 +1615,28 @@ def inplace_schedule(e: int, tid: int):
         st.append((c, ("px", j, f"i{e}")))
         st += look()
     return st
+
+
+DNALPHA = ["seta", "setN", "push", "pushN", "cvset0", "cvsetN1", "spawn", "thread"]
+DN_PREFIX = [(0, ("mkp", "l", 0, 3, 0)), (0, ("mkp", "l", 0, 4, 3)), (0, ("mkp", "s", 0, 2, 0)), (0, ("mkp", "v", 0, 2, 4)),
+             (0, ("mkp", "v", 1, 2, 0))]
+
+
+def realise_dotted(muts):
+    steps = list(DN_PREFIX)
+    nctx = 1
+    for i, (c, k) in enumerate(muts):
+        if k in ("spawn", "thread"):
+            steps.append((c, (k,)))
+            nctx += 1
+        elif k.startswith("cvset"):
+            steps.append((c, ("cvset", int(k[-1]), NONE_ID if "N" in k else i + 1)))
+        else:
+            steps.append((c, _mk(k, i + 1)))
+        for c2 in range(nctx):
+            for j in range(5):
+                steps.append((c2, ("px", j, ["cur", "bool", "repr", "get", "msg", "set"][(i + c2 + j) % 6])))
+    return steps
 
 
 CVALPHA = ["cvset0", "cvsetN0", "cvreset0", "cvset1", "cvsetN1", "cvreset1", "spawn", "thread"]
@@ -1887,8 +1921,10 @@ def other_proxy_kinds(chk: Check, wl) -> None:
     ns, stk = wl.Local(), wl.LocalStack()
     p_cv, p_tw = wl.LocalProxy(cv), wl.LocalProxy(cv, "twin", unbound_message="nothing here")
     p_fn = wl.LocalProxy(lambda: stk.top)
+    p_fd = wl.LocalProxy(lambda: stk.top, "twin.twin")       # callable + dotted name
     b1, b2 = Box(1), Box(2)
     b1.twin, b2.twin = Box(1002), Box(1003)
+    b1.twin.twin, b2.twin.twin = Box(2003), Box(2004)
 
     def obs():
         out = []
@@ -1898,6 +1934,10 @@ def other_proxy_kinds(chk: Check, wl) -> None:
                 out.append("none" if o is None else f"v{o.n}")
             except RuntimeError as e:
                 out.append("rterr:" + str(e))
+        try:
+            out.append(f"v{p_fd._get_current_object().n}")
+        except AttributeError:
+            out.append("attrerr")          # stk.top is None here: None has no attribute twin (a callable proxy does not catch it)
         return out + [bool(p_cv), repr(p_cv)]
     a = contextvars.Context()
 
@@ -1919,10 +1959,11 @@ def other_proxy_kinds(chk: Check, wl) -> None:
     th.start()
     th.join(T_WAIT)
     got["new-thread"] = res[0] if res else None
-    unbound = ["rterr:object is not bound", "rterr:nothing here", "none", False, "<LocalProxy unbound>"]
+    unbound = ["rterr:object is not bound", "rterr:nothing here", "none", "attrerr", False, "<LocalProxy unbound>"]
     want = {"sibling": unbound, "new-thread": unbound,
-            "child-at-birth": ["v1", "v1002", "v1", True, "Box(1)"], "child-after-set": ["v2", "v1003", "v2", False, "Box(2)"],
-            "parent-after-child-set": ["v1", "v1002", "v1", True, "Box(1)"]}
+            "child-at-birth": ["v1", "v1002", "v1", "v2003", True, "Box(1)"],
+            "child-after-set": ["v2", "v1003", "v2", "v2004", False, "Box(2)"],
+            "parent-after-child-set": ["v1", "v1002", "v1", "v2003", True, "Box(1)"]}
     for k in want:
         chk.case(("other-proxy", k), nontrivial=True)
         if got[k] != want[k]:
@@ -2007,6 +2048,18 @@ def schedules(rng, quick: bool, exh: dict):
                 yield r, st
     exh["inplace_through_proxy"] = dict(schedules=n, observation="result is the proxy; content of the target object and what every "
                                         "context resolves to, after every in-place operation; implementation vs oracle only")
+    # dotted names: local("a.twin"), local("a.twin.twin"), stack("twin.twin"), LocalProxy(ContextVar, "twin.twin") resolve to
+    # obj.twin.twin of the object bound in the accessing context; unbound iff nothing is bound; oracle-only
+    L_dn = 3 if quick else 4
+    n = 0
+    for ln in range(1, L_dn + 1):
+        for m in enumerate_muts(DNALPHA, ln):
+            st = realise_dotted(m)
+            for r in RUNNERS:
+                n += 1
+                yield r, st
+    exh["dotted_names"] = dict(alphabet=DNALPHA, max_len=L_dn, contexts=3, schedules=n,
+                               observation="5 dotted-name proxies x rotating access in every context after every step; all runners")
     L_mw = 5 if quick else 6
     n = 0
     for ln in range(1, L_mw + 1):
@@ -2112,7 +2165,9 @@ def run(chk: Check) -> None:
                             f"{exp[d] if d < len(exp) else '?'}")
                     key = "cow:payload-mutated" if d < len(out) and "|payload-mutated" in out[d] else (
                         ("proxy:" if opk == "px" else "leak:") + opk)
-                    if opk == "px" and any(op[0] == "px" and op[2][0] == "i" and op[2] != "iter" for _, op in steps[:d + 1]):
+                    if opk == "px" and any(op[0] == "mkp" and op[3] >= (3 if op[1] == "l" else 2) for _, op in steps):
+                        key = "proxy:dotted-name"
+                    elif opk == "px" and any(op[0] == "px" and op[2][0] == "i" and op[2] != "iter" for _, op in steps[:d + 1]):
                         key = "proxy:inplace"           # name op= x through a proxy: result / target / other contexts
                     elif opk == "px" and any(op[0] in CV_KINDS or (op[0] == "mkp" and op[1] == "v") for _, op in steps):
                         key = "proxy:contextvar"
@@ -2120,6 +2175,7 @@ def run(chk: Check) -> None:
                         key = "middleware-" + key
                     elif key.startswith("leak:") and not any(op[0] in ("spawn", "thread") for _, op in steps[:d + 1]):
                         key = "binding:" + opk      # wrong in the one context that exists: a binding lost / invented, not a leak
+                    st.setdefault("first_bad_key", key)
                     chk.fail(key, what,
                              {"runner": runner, "steps": [tok(s) for s in steps], "bad_step": d,
                               "impl": out[max(0, d - 3):d + 1], "expected": exp[max(0, d - 3):d + 1]})
@@ -2183,7 +2239,7 @@ def run(chk: Check) -> None:
         o, e = RUNNERS[runner](env, small), oracle(small)
         wildcard(o, e)
         dd = first_diff(o, e)
-        chk.failures.insert(0, {"key": chk.failures[0]["key"], "what": "shrunk: " + (
+        chk.failures.insert(0, {"key": st.get("first_bad_key", chk.failures[0]["key"]), "what": "shrunk: " + (
             f"[{runner}] step {dd} ({tok(small[dd])}): implementation {o[dd]}, reference {e[dd]}"
             if dd is not None and dd < len(small) else "?"),
             "input": {"runner": runner, "steps": [tok(s) for s in small], "bad_step": dd, "impl": o, "expected": e}})
